@@ -42,6 +42,7 @@ class Result:
         self.sample = None
         self.wall = 0.0
         self.alloc_count = None
+        self.call_counts = None
 
 
 _REGISTRY = {}
